@@ -39,7 +39,9 @@ Canon(j) ==
                    allow |-> {<<r.owner, r.spender, r.amount>> : r \in Range(j.tok[t].allow)}]],
       pair |-> [a \in {p.addr : p \in Range(j.pair)} |->
                   LET p == CHOOSE q \in Range(j.pair) : q.addr = a IN
-                  [a0 |-> p.a0, a1 |-> p.a1, d0 |-> p.d0, d1 |-> p.d1, lp |-> p.lp,
+                  [a0 |-> p.a0, a1 |-> p.a1, d0 |-> p.d0, d1 |-> p.d1,
+                   lp |-> p.lp,               \* the cw20 contract instantiated as this pair's LP token (a fact of the deployment)
+                   self_lp |-> p.self_lp,     \* what the pair reports as its LP token
                    commission |-> p.commission, wl |-> Range(p.wl), m0 |-> p.m0, m1 |-> p.m1]],
       fac  |-> [addr |-> j.fac.addr, owner |-> j.fac.owner,
                 pair_code |-> j.fac.pair_code, token_code |-> j.fac.token_code,
